@@ -5,6 +5,12 @@
 #include <string>
 #include "rkcommon/common.h"
 #include "rkcommon/common.cpp"
+#ifdef VP_NATIVE_BUILD
+// only to link the native replay build (common.cpp refers to LibraryRepository; never called by these harnesses)
+namespace rkcommon { LibraryRepository *LibraryRepository::getInstance() { return nullptr; }
+  void LibraryRepository::add(const void *, const std::string &, const std::vector<int> &) {} void LibraryRepository::remove(const std::string &) {}
+  void *LibraryRepository::getSymbol(const std::string &) const { return nullptr; } }
+#endif
 static double g_val;
 static bool g_small;   // |val| < 1: sub-unit suffixes
 static double scale_of(int c)
